@@ -8,7 +8,7 @@ from .c15 import box_selector, _fclass
 
 ID = "C01"
 LEVEL = "exploration"
-BUDGET = {"quick": 30000, "thorough": 600000}
+BUDGET = {"quick": 24000, "thorough": 480000}
 WALL_CAP = {"quick": 600, "thorough": 5400}
 RULE = ("case = generated 2D/3D plotfile x 4-10 selections (field selector in {name,int,ascending int list,"
         "name list,forward slice with None/in-range/past-the-end parts} x level x box selector in {int,negative "
